@@ -24,7 +24,7 @@ from fractions import Fraction
 
 from . import core
 
-TMP = "/tmp/c19/files"
+TMP = "/tmp/c19/files-%d" % os.getpid()
 
 RED = {
     "add": lambda a, b: a + b,
@@ -558,13 +558,20 @@ def run(ctx):
     os.makedirs(TMP, exist_ok=True)
     try:
         # 1. fixed corpus: repaired defect first
+        k_det = 0
         for name, mk in fixed_corpus():
             for post in ["none", "transpose", "sort_rev"]:
+                k_det += 1
+                if not ctx.mine(k_det):
+                    continue
                 chk.recipe = {"kind": "fixed", "name": name, "post": post}
                 tag = "fixed:%s/%s" % (name, post)
                 chk.all_api(from_recipe(chk.recipe), tag, ("fixed", name))
                 run_cli(chk, from_recipe(chk.recipe), tag, ("fixed", name, "cli"), random.Random(1))
         for name, mk in empty_tables():
+            k_det += 1
+            if not ctx.mine(k_det):
+                continue
             chk.recipe = {"kind": "empty", "name": name}
             t = mk()
             inp = input_obs(t)
@@ -577,26 +584,30 @@ def run(ctx):
         t = from_recipe(chk.recipe)
         inp = input_obs(t)
         for n, m in [(0, 2), (2, 0), (-1, 2), (2, -1), (1, 1), (3, 4), (5, 2), (2, 9)]:
+            k_det += 1
+            if not ctx.mine(k_det):
+                continue
             chk.head(t, inp, "fixed:head", ("fixed", "head"), "json", n, m, to_file=False)
             chk.head_api(t, inp, "fixed:head", ("fixed", "head"), n, m)
         # 2. every route x every prior operation on one asymmetric spec with metadata
         rng = ctx.rng
+        wtag = "w%d:" % ctx.worker[0] if ctx.worker[1] > 1 else ""
         for route in core.ROUTES:
             for post in sorted(set(POSTS)):
                 spec = core.gen_spec(rng, max_n=5, max_m=6, min_n=2, min_m=3, classes=("neg", "dyadic", "count"),
                                      md=True, density=0.6)
                 chk.recipe = {"kind": "spec", "spec": spec, "route": route, "post": post, "seed": 7}
-                chk.all_api(from_recipe(chk.recipe), "grid:%s/%s" % (route, post), ("grid", route, post))
+                chk.all_api(from_recipe(chk.recipe), "grid:%s%s/%s" % (wtag, route, post), ("grid", route, post))
                 ctx.count("route=%s" % route)
                 ctx.count("post=%s" % post)
         # 3. random tables
-        n_tables = 300 if ctx.quick() else 6000
+        n_tables = 300 if ctx.quick() else 16000 // ctx.worker[1]
         cli_share = 0.15 if ctx.quick() else 0.1
         for k in range(n_tables):
             spec, route, post, classes = gen_table(rng, ctx.quick())
             chk.recipe = {"kind": "spec", "spec": spec, "route": route, "post": post, "seed": k}
             t = from_recipe(chk.recipe)
-            tag = "rand:%d" % k
+            tag = "rand:%s%d" % (wtag, k)
             tags = ("random", route, post)
             ctx.count("route=%s" % route)
             ctx.count("post=%s" % post)
